@@ -14,6 +14,9 @@ import (
 	"github.com/grafana/cog/internal/tools"
 )
 
+// maxNestingDepth is the number of nested arrays/maps templates accept to unfold.
+const maxNestingDepth = 64
+
 const recursionMaxNums = 1000
 
 type FuncMap gotemplate.FuncMap
@@ -202,7 +205,17 @@ func (template *Template) builtins() FuncMap {
 	}
 
 	return FuncMap{
-		"add1": func(i int) int { return i + 1 },
+		// add1 counts the nesting levels of the templates that unfold arrays
+		// and maps. An alias that is recursive through arrays or maps
+		// (`A: [...A]`) never stops unfolding: the rendering is failed instead
+		// of looping until the memory is exhausted.
+		"add1": func(i int) (int, error) {
+			if i >= maxNestingDepth {
+				return 0, fmt.Errorf("more than %d nested levels: is a type alias recursive through arrays or maps?", maxNestingDepth)
+			}
+
+			return i + 1, nil
+		},
 		"sub1": func(i int) int { return i - 1 },
 		// https://github.com/Masterminds/sprig/blob/581758eb7d96ae4d113649668fa96acc74d46e7f/dict.go#L76
 		"dict": func(v ...any) map[string]any {
